@@ -434,8 +434,18 @@ theorem fieldTable_spec (d : Nat) (hd : d ≠ 10) (bs : Bytes) (n : Nat)
     rw [hpieces, length_flatten_const n _ hrowlen]
     simp
   refine ⟨⟨n, 0 :: (delimsFrom (isDelim d) 0 (complete bs)).dropLast.map (· + 1), delimsFrom (isDelim d) 0 (complete bs)⟩, ?_, rfl, ?_⟩
-  · unfold fieldTable
-    simp only [hdata_ne, if_false, hn, hdslen, Nat.mul_mod_left]
+  · have hvalid : ((linesOf (complete bs)).map (fun l => l.count d + 1)).findIdx? (fun c => c != n) = none := by
+      rw [List.findIdx?_eq_none_iff]
+      intro c hc
+      rw [hcomp, linesOf_unlines _ hfree] at hc
+      simp only [List.mem_map] at hc
+      obtain ⟨l, hl', rfl⟩ := hc
+      have hj := joinWith_splitOn d l
+      have := count_joinWith d (splitOn d l) (splitOn_ne_nil d l) (fun p hp => (splitOn_pieces d l p hp).1)
+      rw [hj, huni l hl'] at this
+      simp [this]
+    unfold fieldTable
+    simp only [hdata_ne, if_false, hn, hvalid, hdslen, Nat.mul_mod_left]
     simp
   · unfold tableFields Table.rows Table.pairs
     simp only
@@ -631,14 +641,18 @@ theorem signedRow_spec (t : Bytes) (v : Int) (h : specInt t = some v) : signedRo
     intro t n hn h1 h2
     obtain ⟨_, hd, rfl⟩ := specNat_some t n hn
     unfold signedRow
-    simp only [h1, h2, decide_false, Bool.or_self, Bool.false_eq_true, if_false, hd, if_true]
+    simp only [h1, h2, decide_false, Bool.or_self, Bool.false_and, Bool.false_eq_true, if_false, hd, if_true]
     have hl : t.length = (t.map (· - 48)).length := by simp
     rw [hl, dot_powers]
   have signed : ∀ (c : Nat) (r : Bytes) (n : Nat), (c = 45 ∨ c = 43) → specNat r = some n →
       signedRow (c :: r) = some (if c = 45 then -(n : Int) else (n : Int)) := by
     intro c r n hc hn
-    obtain ⟨_, hd, rfl⟩ := specNat_some r n hn
+    obtain ⟨hrne, hd, rfl⟩ := specNat_some r n hn
     unfold signedRow
+    have hlen1 : ((c :: r).length == 1) = false := by
+      cases r with
+      | nil => exact absurd rfl hrne
+      | cons x xs => simp
     have hbody : ((48 :: r).all isDigit) = true := by simp [hd, isDigit]
     have hval : dot ((48 :: r).map (· - 48)) (powersDesc (48 :: r).length) = decVal (r.map (· - 48)) := by
       have hl : (48 :: r).length = ((48 :: r).map (· - 48)).length := by simp
@@ -648,8 +662,8 @@ theorem signedRow_spec (t : Bytes) (v : Int) (h : specInt t = some v) : signedRo
     have hval' : dot (0 :: r.map (· - 48)) (powersDesc (r.length + 1)) = decVal (r.map (· - 48)) := by
       simpa using hval
     cases hc with
-    | inl hc => subst hc; simp [hbody, hval']
-    | inr hc => subst hc; simp [hbody, hval']
+    | inl hc => subst hc; simp [hbody, hval', hrne]
+    | inr hc => subst hc; simp [hbody, hval', hrne]
   match t, h with
   | 45 :: r, h =>
     cases hn : specNat r with
@@ -1165,6 +1179,597 @@ theorem kline_roles (k : Nat) (offsets : List Nat) (bs : Bytes) (hk : 0 < k)
   simp only [Function.comp, Prod.map, id]
   exact slice_add bs po.1.1 po.2 po.1.2
 
+/-! ## the per-file composition: offset table + CR rule + typed columns = reference parser -/
+
+/-! ### position facts about the (start, end) pairs -/
+
+def wfPair (isD : Nat → Bool) (whole : Bytes) (s0 : Nat) (p : Nat × Nat) : Prop :=
+  p.1 ≤ p.2 ∧ p.2 < whole.length ∧ isD (whole.getD p.2 0) = true ∧
+  (p.1 = s0 ∨ (0 < p.1 ∧ isD (whole.getD (p.1 - 1) 0) = true))
+
+theorem getD_append_mid (pre : Bytes) (b : Nat) (post : Bytes) : (pre ++ b :: post).getD pre.length 0 = b := by
+  simp [List.getD_eq_getElem?_getD]
+
+theorem pairs_wf_aux (isD : Nat → Bool) (bs pre : Bytes) (s : Nat) (hs : s ≤ pre.length) :
+    ∀ p ∈ List.zip (s :: (delimsFrom isD pre.length bs).map (· + 1)) (delimsFrom isD pre.length bs),
+      wfPair isD (pre ++ bs) s p := by
+  induction bs generalizing pre s with
+  | nil => intro p hp; simp [delimsFrom] at hp
+  | cons b rest ih =>
+    have hpre : pre ++ b :: rest = (pre ++ [b]) ++ rest := by simp
+    have hlen : (pre ++ [b]).length = pre.length + 1 := by simp
+    intro p hp
+    simp only [delimsFrom] at hp
+    split at hp
+    · rename_i hD
+      simp only [List.map_cons, List.zip_cons_cons, List.mem_cons] at hp
+      rcases hp with rfl | hp
+      · refine ⟨hs, by simp, ?_, Or.inl rfl⟩
+        simp only [getD_append_mid, hD]
+      · have := ih (pre ++ [b]) (pre.length + 1) (by simp) p (by rw [hlen]; exact hp)
+        rw [← hpre] at this
+        obtain ⟨h1, h2, h3, h4⟩ := this
+        refine ⟨h1, h2, h3, Or.inr ?_⟩
+        rcases h4 with h4 | h4
+        · rw [h4]
+          refine ⟨by omega, ?_⟩
+          simp only [Nat.add_sub_cancel, getD_append_mid, hD]
+        · exact h4
+    · have := ih (pre ++ [b]) s (by simp; omega) p (by rw [hlen]; exact hp)
+      rw [← hpre] at this
+      exact this
+
+theorem pairs_wf (isD : Nat → Bool) (bs : Bytes) :
+    ∀ p ∈ List.zip (0 :: (delimsFrom isD 0 bs).dropLast.map (· + 1)) (delimsFrom isD 0 bs), wfPair isD bs 0 p := by
+  have h := pairs_wf_aux isD bs [] 0 (by simp)
+  have e : List.zip (0 :: (delimsFrom isD 0 bs).dropLast.map (· + 1)) (delimsFrom isD 0 bs)
+      = List.zip (0 :: (delimsFrom isD 0 bs).map (· + 1)) (delimsFrom isD 0 bs) := by
+    have := zipWith_dropLast (fun (a : Nat) (b : Nat) => (a, b)) (· + 1) 0 (delimsFrom isD 0 bs)
+    simpa [List.zip] using this
+  rw [e]
+  simpa using h
+
+theorem mem_chunkF {α} (n k : Nat) (xs : List α) (r : List α) (hr : r ∈ chunkF n k xs) : ∀ x ∈ r, x ∈ xs := by
+  induction k generalizing xs with
+  | zero => simp [chunkF] at hr
+  | succ k ih =>
+    simp only [chunkF, List.mem_cons] at hr
+    rcases hr with rfl | hr
+    · intro x hx; exact List.mem_of_mem_take hx
+    · intro x hx; exact List.mem_of_mem_drop (ih _ hr x hx)
+
+theorem lastField_getLast (d : Nat) (l f : Bytes) (hf : (splitOn d l).getLast? = some f) (hne : f ≠ []) :
+    l.getLast? = f.getLast? := by
+  have h := splitOn_ne_nil d l
+  have hfs : splitOn d l = (splitOn d l).dropLast ++ [f] := by
+    have := List.dropLast_concat_getLast h
+    rw [List.getLast?_eq_some_getLast h] at hf
+    simp only [Option.some.injEq] at hf
+    rw [hf] at this
+    exact this.symm
+  have hj := joinWith_splitOn d l
+  rw [hfs, joinWith_snoc] at hj
+  rw [← hj, List.getLast?_append]
+  cases hfl : f.getLast? with
+  | none => exact absurd (List.getLast?_eq_none_iff.mp hfl) hne
+  | some x => simp
+
+theorem columnOf_map {α β} (f : α → β) (rows : List (List α)) (j : Nat) :
+    columnOf (rows.map (fun r => r.map f)) j = (columnOf rows j).map f := by
+  unfold columnOf
+  induction rows with
+  | nil => rfl
+  | cons r rs ih =>
+    simp only [List.map_cons, List.filterMap_cons, List.getElem?_map]
+    cases r[j]? <;> simp [ih]
+
+theorem omap_eq_some_getD {α β} (f : α → Option β) (d : β) (l : List α) (r : List β) (h : omap f l = some r) :
+    r = l.map (fun a => (f a).getD d) := by
+  induction l generalizing r with
+  | nil => simp at h; subst h; rfl
+  | cons x xs ih =>
+    obtain ⟨b, bs, hb, hbs, rfl⟩ := omap_cons_eq_some f x xs r h
+    simp [hb, ih bs hbs]
+
+theorem specInt_of_specNat (t : Bytes) (n : Nat) (h : specNat t = some n) : specInt t = some (n : Int) := by
+  obtain ⟨hne, hd, _⟩ := specNat_some t n h
+  have hh : ∀ c, t.head? = some c → isDigit c = true := by
+    intro c hc
+    cases t with
+    | nil => simp at hc
+    | cons x xs =>
+      simp at hc; subst hc
+      simp only [List.all_cons, Bool.and_eq_true] at hd
+      exact hd.1
+  rw [specInt_unsigned t (fun h45 => (isDigit_not_sign 45 (hh 45 h45)).1 rfl)
+    (fun h43 => (isDigit_not_sign 43 (hh 43 h43)).2 rfl), h]
+  rfl
+
+def modelledKind (k : String) : Prop :=
+  k = "int" ∨ k = "sint" ∨ k = "oint" ∨ k = "id" ∨ k = "str" ∨ k = "float" ∨ k = "ilist" ∨ k = "strand"
+
+/-- every modelled column type: the typed extraction of a column equals the documented reading of the column's
+texts, whenever that reading exists -/
+theorem typedColumn_spec (sk : String) (data : Bytes) (fs : List (Nat × Nat))
+    (hwf : ∀ p ∈ fs, p.1 ≤ p.2 ∧ p.2 ≤ data.length) (c : Col)
+    (hs : specColumn sk (fs.map (fun p => slice data p.1 p.2)) = some c) :
+    typedColumn (normKind sk) data fs = .ok c := by
+  unfold specColumn at hs
+  by_cases h1 : sk = "int"
+  · subst h1
+    simp only [if_true, Option.map_eq_some_iff] at hs
+    obtain ⟨vs, ho, rfl⟩ := hs
+    rw [omap_map] at ho
+    have hnat : ∀ p ∈ fs, ∃ n, specNat (slice data p.1 p.2) = some n := by
+      intro p hp
+      have := (omap_isSome_iff _ _).mp (by rw [ho]; rfl) p hp
+      unfold specNatI at this
+      cases hn : specNat (slice data p.1 p.2) with
+      | none => simp [hn] at this
+      | some n => exact ⟨n, rfl⟩
+    have hint : ∀ p ∈ fs, ∃ v, specInt (slice data p.1 p.2) = some v := by
+      intro p hp
+      obtain ⟨n, hn⟩ := hnat p hp
+      exact ⟨n, specInt_of_specNat _ n hn⟩
+    obtain ⟨ws, hw1, hw2⟩ := intColumn_spec data fs hwf hint
+    have e : omap (fun p => specInt (slice data p.1 p.2)) fs = omap (fun p => specNatI (slice data p.1 p.2)) fs := by
+      apply omap_congr
+      intro p hp
+      obtain ⟨n, hn⟩ := hnat p hp
+      rw [specInt_of_specNat _ n hn]
+      simp [specNatI, hn]
+    rw [e, ho] at hw2
+    have : ws = vs := (Option.some.inj hw2).symm
+    subst this
+    simp [typedColumn, normKind, hw1, Except.map]
+  · by_cases h2 : sk = "sint"
+    · subst h2
+      simp only [h1, if_false, if_true, Option.map_eq_some_iff] at hs
+      obtain ⟨vs, ho, rfl⟩ := hs
+      rw [omap_map] at ho
+      have hint : ∀ p ∈ fs, ∃ v, specInt (slice data p.1 p.2) = some v := by
+        intro p hp
+        have := (omap_isSome_iff _ _).mp (by rw [ho]; rfl) p hp
+        exact Option.isSome_iff_exists.mp this
+      obtain ⟨ws, hw1, hw2⟩ := intColumn_spec data fs hwf hint
+      rw [ho] at hw2
+      have : ws = vs := (Option.some.inj hw2).symm
+      subst this
+      simp [typedColumn, normKind, hw1, Except.map]
+    · by_cases h3 : sk = "oint"
+      · subst h3
+        simp only [h1, h2, if_false, if_true, Option.map_eq_some_iff] at hs
+        obtain ⟨vs, ho, rfl⟩ := hs
+        · have hall : ∀ t ∈ fs.map (fun p => slice data p.1 p.2), t = [] ∨ t = [46] ∨ ∃ v, specInt t = some v := by
+            intro t ht
+            have := (omap_isSome_iff _ _).mp (by rw [ho]; rfl) t ht
+            unfold specOInt at this
+            by_cases hm : t = [] ∨ t = [46]
+            · rcases hm with hm | hm
+              · exact Or.inl hm
+              · exact Or.inr (Or.inl hm)
+            · simp only [hm, if_false] at this
+              exact Or.inr (Or.inr (Option.isSome_iff_exists.mp this))
+          have hspec := optIntColumn_spec _ hall
+          have hv := omap_eq_some_getD specOInt 0 _ vs ho
+          have : vs = (fs.map (fun p => slice data p.1 p.2)).map
+              (fun t => if t = [] ∨ t = [46] then 0 else (specInt t).getD 0) := by
+            rw [hv]
+            apply List.map_congr_left
+            intro t _
+            unfold specOInt
+            split <;> simp
+          simp [typedColumn, normKind, hspec, Except.map, this]
+      · by_cases h4 : sk = "id"
+        · subst h4
+          simp only [h1, h2, h3, if_false, if_true] at hs
+          split at hs
+          · rename_i hall
+            simp at hs; subst hs
+            have hnul : ∀ p ∈ fs, (slice data p.1 p.2).getLast? ≠ some 0 := by
+              intro p hp
+              have := (List.all_eq_true.mp hall) (slice data p.1 p.2) (List.mem_map.mpr ⟨p, hp, rfl⟩)
+              simpa using this
+            simp [typedColumn, normKind, idColumn_spec data fs hwf hnul]
+          · simp at hs
+        · by_cases h5 : sk = "str"
+          · subst h5
+            simp only [h1, h2, h3, h4, if_false, if_true] at hs
+            simp at hs; subst hs
+            simp [typedColumn, normKind]
+          · by_cases h6 : sk = "float"
+            · subst h6
+              simp only [h1, h2, h3, h4, h5, if_false, if_true] at hs
+              simp at hs; subst hs
+              simp [typedColumn, normKind]
+            · by_cases h7 : sk = "ilist"
+              · subst h7
+                simp only [h1, h2, h3, h4, h5, h6, if_false, if_true, Option.map_eq_some_iff] at hs
+                obtain ⟨vs, ho, rfl⟩ := hs
+                simp [typedColumn, normKind, intListColumn_spec _ vs ho, Except.map]
+              · by_cases h8 : sk = "strand"
+                · subst h8
+                  simp only [h1, h2, h3, h4, h5, h6, h7, if_false, if_true] at hs
+                  split at hs
+                  · rename_i hall
+                    simp at hs; subst hs
+                    have hbad : firstBadRow (fs.map (fun p => slice data p.1 p.2)) strandOK = none := by
+                      unfold firstBadRow
+                      have : (fs.map (fun p => slice data p.1 p.2)).findIdx (fun r => !r.all strandOK)
+                          = (fs.map (fun p => slice data p.1 p.2)).length := by
+                        apply List.findIdx_eq_length_of_false
+                        intro r hr
+                        have := (List.all_eq_true.mp hall) r hr
+                        simp only [Bool.and_eq_true] at this
+                        simp [this.2]
+                      simp [this]
+                    simp [typedColumn, normKind, hbad]
+                  · simp at hs
+                · simp [h1, h2, h3, h4, h5, h6, h7, h8] at hs
+
+theorem mem_columnOf {α} (rows : List (List α)) (j : Nat) (x : α) (hx : x ∈ columnOf rows j) :
+    ∃ r ∈ rows, x ∈ r := by
+  unfold columnOf at hx
+  simp only [List.mem_filterMap] at hx
+  obtain ⟨r, hr, hrx⟩ := hx
+  exact ⟨r, hr, List.mem_of_getElem? hrx⟩
+
+theorem typedColumnsFrom_spec (data : Bytes) (rows : List (List (Nat × Nat)))
+    (hwf : ∀ r ∈ rows, ∀ p ∈ r, p.1 ≤ p.2 ∧ p.2 ≤ data.length)
+    (sks : List String) (j : Nat) (cs : List Col)
+    (hs : specColumnsFrom (rows.map (fun r => r.map (fun p => slice data p.1 p.2))) j sks = some cs) :
+    typedColumnsFrom data rows j (sks.map normKind) = .ok cs := by
+  induction sks generalizing j cs with
+  | nil => simp [specColumnsFrom] at hs; subst hs; rfl
+  | cons k ks ih =>
+    simp only [specColumnsFrom] at hs
+    split at hs
+    · rename_i c cs' hc hcs
+      simp only [Option.some.injEq] at hs; subst hs
+      rw [columnOf_map] at hc
+      have h1 := typedColumn_spec k data (columnOf rows j)
+        (fun p hp => by obtain ⟨r, hr, hpr⟩ := mem_columnOf rows j p hp; exact hwf r hr p hpr) c hc
+      simp only [List.map_cons, typedColumnsFrom, h1, ih (j + 1) cs' hcs]
+    · simp at hs
+
+theorem fieldTable_shape (d : Nat) (bs : Bytes) (t : Table) (h : fieldTable d bs = .ok t) :
+    t.starts = 0 :: (delimsFrom (isDelim d) 0 (complete bs)).dropLast.map (· + 1) ∧
+    t.ends = delimsFrom (isDelim d) 0 (complete bs) := by
+  unfold fieldTable at h
+  simp only at h
+  split at h
+  · simp at h
+  · split at h
+    · simp at h
+    · split at h
+      · simp at h
+      · simp only [Except.ok.injEq] at h
+        subst h
+        exact ⟨rfl, rfl⟩
+
+theorem consHead_snoc (x : Nat) (ps : List Bytes) (hne : ps ≠ []) (tl : Bytes) :
+    consHead x (ps.dropLast ++ [ps.getLast?.getD [] ++ tl])
+      = (consHead x ps).dropLast ++ [(consHead x ps).getLast?.getD [] ++ tl] := by
+  cases ps with
+  | nil => exact absurd rfl hne
+  | cons p qs =>
+    cases qs with
+    | nil => simp [consHead]
+    | cons q rs => simp [consHead, List.getLast?_cons_cons]
+
+theorem splitOn_snoc (d b : Nat) (hb : b ≠ d) (l : Bytes) :
+    splitOn d (l ++ [b]) = (splitOn d l).dropLast ++ [(splitOn d l).getLast?.getD [] ++ [b]] := by
+  induction l with
+  | nil => simp [splitOn, hb, consHead]
+  | cons x xs ih =>
+    have hne := splitOn_ne_nil d xs
+    simp only [List.cons_append, splitOn]
+    split
+    · rw [ih]
+      cases h : splitOn d xs with
+      | nil => exact absurd h hne
+      | cons p ps => simp [List.getLast?_cons_cons]
+    · rw [ih]
+      exact consHead_snoc x _ hne [b]
+
+def adjRow (data : Bytes) (r : List (Nat × Nat)) : List (Nat × Nat) :=
+  match r.getLast? with
+  | none => r
+  | some (s, e) => r.dropLast ++ [(s, if data.getD (e - 1) 0 = 13 then e - 1 else e)]
+
+/-- one row under the CR rule: when the line ends in CR, the adjusted pairs denote the fields of the line
+without its CR -/
+theorem adjRow_spec (data : Bytes) (d : Nat) (hd13 : d ≠ 13) (r : List (Nat × Nat)) (l : Bytes)
+    (htext : r.map (fun p => slice data p.1 p.2) = splitOn d l)
+    (hwf : ∀ p ∈ r, p.1 ≤ p.2 ∧ p.2 ≤ data.length)
+    (hcr : l.getLast? = some 13) :
+    (adjRow data r).map (fun p => slice data p.1 p.2) = splitOn d l.dropLast ∧
+    (∀ p ∈ adjRow data r, p.1 ≤ p.2 ∧ p.2 ≤ data.length) ∧
+    (∀ s e, r.getLast? = some (s, e) → e ≠ 0 ∧ data.getD (e - 1) 0 = 13) := by
+  have hlne : l ≠ [] := by intro h; subst h; simp at hcr
+  have hl : l = l.dropLast ++ [13] := by
+    have := List.dropLast_concat_getLast hlne
+    rw [List.getLast?_eq_some_getLast hlne] at hcr
+    simp only [Option.some.injEq] at hcr
+    rw [hcr] at this
+    exact this.symm
+  have hsp := splitOn_snoc d 13 (fun h => hd13 h.symm) l.dropLast
+  rw [← hl] at hsp
+  have hne' := splitOn_ne_nil d l.dropLast
+  have hrne : r ≠ [] := by
+    intro h; subst h
+    simp at htext
+    exact splitOn_ne_nil d l htext
+  obtain ⟨⟨s, e⟩, hp⟩ : ∃ q, r.getLast hrne = q := ⟨_, rfl⟩
+  have hr : r = r.dropLast ++ [(s, e)] := by
+    rw [← hp]; exact (List.dropLast_concat_getLast hrne).symm
+  have hlast : r.getLast? = some (s, e) := by rw [List.getLast?_eq_some_getLast hrne, hp]
+  have hmem : (s, e) ∈ r := List.mem_of_getLast? hlast
+  obtain ⟨hse, hel⟩ := hwf (s, e) hmem
+  simp only at hse hel
+  rw [hr, List.map_append, hsp] at htext
+  have hlen : (r.dropLast.map (fun p => slice data p.1 p.2)).length = (splitOn d l.dropLast).dropLast.length := by
+    have := congrArg List.length htext
+    simp at this
+    simp; omega
+  obtain ⟨hinit, hlastf⟩ := List.append_inj htext hlen
+  simp only [List.map_cons, List.map_nil, List.cons.injEq, and_true] at hlastf
+  have hslt : s < e := by
+    rcases Nat.lt_or_ge s e with h | h
+    · exact h
+    · have : slice data s e = [] := by simp [slice]; omega
+      rw [this] at hlastf
+      simp at hlastf
+  have h13 : data.getD (e - 1) 0 = 13 := by
+    have := slice_getLast data s e hslt hel
+    rw [hlastf] at this
+    simpa using this.symm
+  refine ⟨?_, ?_, ?_⟩
+  · unfold adjRow
+    simp only [hlast, h13, if_true]
+    rw [List.map_append, hinit]
+    simp only [List.map_cons, List.map_nil]
+    rw [slice_dropLast data s e hslt hel, hlastf]
+    simp only [List.dropLast_concat]
+    rw [List.getLast?_eq_some_getLast hne']
+    exact List.dropLast_concat_getLast hne'
+  · intro p hp'
+    unfold adjRow at hp'
+    simp only [hlast, h13, if_true, List.mem_append, List.mem_singleton] at hp'
+    rcases hp' with hp' | rfl
+    · exact hwf p (List.dropLast_subset r hp')
+    · simp only; omega
+  · intro s' e' h'
+    rw [hlast] at h'
+    simp only [Option.some.injEq, Prod.mk.injEq] at h'
+    obtain ⟨rfl, rfl⟩ := h'
+    exact ⟨by omega, h13⟩
+
+theorem map_eq_map_of_pairwise {α β γ} (f f' : α → γ) (g g' : β → γ) (xs : List α) (ys : List β)
+    (h : xs.map f = ys.map g) (hp : ∀ x ∈ xs, ∀ y ∈ ys, f x = g y → f' x = g' y) :
+    xs.map f' = ys.map g' := by
+  induction xs generalizing ys with
+  | nil => cases ys with
+    | nil => rfl
+    | cons y ys => simp at h
+  | cons x xs ih =>
+    cases ys with
+    | nil => simp at h
+    | cons y ys =>
+      simp only [List.map_cons, List.cons.injEq] at h ⊢
+      exact ⟨hp x (by simp) y (by simp) h.1, ih ys h.2 (fun a ha b hb => hp a (by simp [ha]) b (by simp [hb]))⟩
+
+/-- the CR rule on a whole table of a CRLF file -/
+theorem crAdjust_crlf (data : Bytes) (d : Nat) (hd13 : d ≠ 13) (rows : List (List (Nat × Nat))) (lines : List Bytes)
+    (hne : lines ≠ [])
+    (htexts : rows.map (fun r => r.map (fun p => slice data p.1 p.2)) = lines.map (splitOn d))
+    (hwf : ∀ r ∈ rows, ∀ p ∈ r, p.1 ≤ p.2 ∧ p.2 ≤ data.length)
+    (hcr : ∀ l ∈ lines, l.getLast? = some 13) :
+    (crAdjustRows data rows).map (fun r => r.map (fun p => slice data p.1 p.2)) = lines.map (fun l => splitOn d l.dropLast) ∧
+    (∀ r ∈ crAdjustRows data rows, ∀ p ∈ r, p.1 ≤ p.2 ∧ p.2 ≤ data.length) := by
+  obtain ⟨l0, lrest, hl⟩ : ∃ l0 lrest, lines = l0 :: lrest := by
+    cases h : lines with
+    | nil => exact absurd h hne
+    | cons a b => exact ⟨a, b, rfl⟩
+  obtain ⟨r0, rest, hrows⟩ : ∃ r0 rest, rows = r0 :: rest := by
+    cases h : rows with
+    | nil => rw [h, hl] at htexts; simp at htexts
+    | cons a b => exact ⟨a, b, rfl⟩
+  have h0 : r0.map (fun p => slice data p.1 p.2) = splitOn d l0 := by
+    rw [hrows, hl] at htexts
+    simp only [List.map_cons, List.cons.injEq] at htexts
+    exact htexts.1
+  have hspec0 := adjRow_spec data d hd13 r0 l0 h0 (hwf r0 (by rw [hrows]; simp)) (hcr l0 (by rw [hl]; simp))
+  have hr0ne : r0 ≠ [] := by
+    intro h; subst h; simp at h0; exact splitOn_ne_nil d l0 h0
+  obtain ⟨⟨s0, e0⟩, hp⟩ : ∃ q, r0.getLast hr0ne = q := ⟨_, rfl⟩
+  have hlast0 : r0.getLast? = some (s0, e0) := by rw [List.getLast?_eq_some_getLast hr0ne, hp]
+  obtain ⟨he0, h13⟩ := hspec0.2.2 s0 e0 hlast0
+  have hadj : crAdjustRows data rows = rows.map (adjRow data) := by
+    unfold crAdjustRows
+    rw [hrows]
+    simp only [hlast0]
+    rw [if_neg he0, if_pos h13]
+    rfl
+  rw [hadj]
+  refine ⟨?_, ?_⟩
+  · rw [List.map_map]
+    apply map_eq_map_of_pairwise (fun r => r.map (fun p => slice data p.1 p.2)) _ (splitOn d) _ rows lines htexts
+    intro r hr l hl' h
+    exact (adjRow_spec data d hd13 r l h (hwf r hr) (hcr l hl')).1
+  · intro r hr p hp'
+    simp only [List.mem_map] at hr
+    obtain ⟨r', hr', rfl⟩ := hr
+    -- r' corresponds to some line: use its own text equation
+    have hidx : ∃ l ∈ lines, r'.map (fun p => slice data p.1 p.2) = splitOn d l := by
+      have hm : r'.map (fun p => slice data p.1 p.2) ∈ rows.map (fun r => r.map (fun p => slice data p.1 p.2)) :=
+        List.mem_map.mpr ⟨r', hr', rfl⟩
+      rw [htexts] at hm
+      obtain ⟨l, hl', hle⟩ := List.mem_map.mp hm
+      exact ⟨l, hl', hle.symm⟩
+    obtain ⟨l, hl', hle⟩ := hidx
+    exact (adjRow_spec data d hd13 r' l hle (hwf r' hr') (hcr l hl')).2.1 p hp'
+
+
+/-- the rows of the offset table of a file whose lines all have `n` fields: texts and positions -/
+theorem table_rows_facts (d : Nat) (hd : d ≠ 10) (bs : Bytes) (n : Nat) (hne : linesOf bs ≠ [])
+    (hlen : ∀ l ∈ linesOf bs, (splitOn d l).length = n) :
+    ∃ t, fieldTable d bs = .ok t ∧
+      t.rows.map (fun r => r.map (fun p => slice (complete bs) p.1 p.2)) = (linesOf bs).map (splitOn d) ∧
+      (∀ r ∈ t.rows, ∀ p ∈ r, wfPair (isDelim d) (complete bs) 0 p) := by
+  obtain ⟨t, ht, _, htexts⟩ := fieldTable_spec d hd bs n hne hlen
+  obtain ⟨hst, hen⟩ := fieldTable_shape d bs t ht
+  refine ⟨t, ht, htexts, ?_⟩
+  intro r hr p hp
+  have hmem := mem_chunkF _ _ _ r hr p hp
+  unfold Table.pairs at hmem
+  rw [hst, hen] at hmem
+  exact pairs_wf (isDelim d) (complete bs) p hmem
+
+theorem parse_assemble (S : Schema) (sks : List String) (bs : Bytes) (t : Table)
+    (hk : S.cols.map (·.2) = sks.map normKind) (ht : fieldTable S.delim bs = .ok t)
+    (recs : List (List Bytes))
+    (htx : (crAdjustRows (complete bs) t.rows).map (fun r => r.map (fun p => slice (complete bs) p.1 p.2)) = recs)
+    (hwf : ∀ r ∈ crAdjustRows (complete bs) t.rows, ∀ p ∈ r, p.1 ≤ p.2 ∧ p.2 ≤ (complete bs).length)
+    (cs : List Col) (hspec : specColumnsFrom recs 0 sks = some cs) :
+    parseDelimited S bs = .ok (recs.length, cs) := by
+  have hlen : (crAdjustRows (complete bs) t.rows).length = recs.length := by
+    have := congrArg List.length htx
+    simpa using this
+  have hcols : typedColumns (S.cols.map (·.2)) (complete bs) (crAdjustRows (complete bs) t.rows) = .ok cs := by
+    unfold typedColumns
+    rw [hk]
+    exact typedColumnsFrom_spec (complete bs) _ hwf sks 0 cs (by rw [htx]; exact hspec)
+  unfold parseDelimited
+  simp only [ht, hcols, hlen]
+
+/-- the CR rule leaves a table alone when the first line does not end in CR -/
+theorem crAdjust_lf (data : Bytes) (d : Nat) (hd13 : d ≠ 13) (rows : List (List (Nat × Nat))) (lines : List Bytes)
+    (htexts : rows.map (fun r => r.map (fun p => slice data p.1 p.2)) = lines.map (splitOn d))
+    (hwfp : ∀ r ∈ rows, ∀ p ∈ r, wfPair (isDelim d) data 0 p)
+    (hnocr : ∀ l ∈ lines, l.getLast? ≠ some 13) :
+    crAdjustRows data rows = rows := by
+  unfold crAdjustRows
+  cases hrows : rows with
+  | nil => rfl
+  | cons r0 rest =>
+    simp only
+    cases hlast : r0.getLast? with
+    | none => rfl
+    | some pe =>
+      obtain ⟨s0, e0⟩ := pe
+      simp only
+      by_cases he0 : e0 = 0
+      · simp [he0]
+      · simp only [he0, if_false]
+        have hmem0 : r0 ∈ rows := by rw [hrows]; simp
+        have hp0 : (s0, e0) ∈ r0 := List.mem_of_getLast? hlast
+        obtain ⟨h1, h2, h3, h4⟩ := hwfp r0 hmem0 (s0, e0) hp0
+        obtain ⟨l0, lrest, hl⟩ : ∃ l0 lrest, lines = l0 :: lrest := by
+          cases h : lines with
+          | nil => rw [hrows, h] at htexts; simp at htexts
+          | cons a b => exact ⟨a, b, rfl⟩
+        have hrec0 : r0.map (fun p => slice data p.1 p.2) = splitOn d l0 := by
+          have := htexts
+          rw [hrows, hl] at this
+          simp only [List.map_cons, List.cons.injEq] at this
+          exact this.1
+        have hne13 : data.getD (e0 - 1) 0 ≠ 13 := by
+          simp only at h1 h2 h4
+          rcases Nat.lt_or_ge s0 e0 with hlt | hge
+          · have hf : (splitOn d l0).getLast? = some (slice data s0 e0) := by
+              rw [← hrec0, List.getLast?_map, hlast]; rfl
+            have hfne : slice data s0 e0 ≠ [] := by
+              intro h0
+              have := slice_length data s0 e0 (by omega)
+              rw [h0] at this; simp at this; omega
+            have := lastField_getLast d l0 _ hf hfne
+            rw [slice_getLast data s0 e0 hlt (by omega)] at this
+            intro h13
+            rw [h13] at this
+            exact hnocr l0 (by rw [hl]; simp) this
+          · have hse : s0 = e0 := by omega
+            rcases h4 with h4 | ⟨_, h4⟩
+            · omega
+            · rw [hse] at h4
+              simp only [isDelim, Bool.or_eq_true, beq_iff_eq] at h4
+              rcases h4 with h4 | h4 <;> omega
+        rw [if_neg hne13]
+
+/-- the lines as the format reads them: when every line ends in CR (a CRLF file) the CR is not part of the line -/
+def specLines (bs : Bytes) : List Bytes :=
+  let ls := linesOf bs
+  if ls ≠ [] ∧ ls.all (fun l => l.getLast? = some 13) then ls.map stripCR else ls
+
+/-- **parse_delimited.** For every schema made of the modelled column types (int, signed int, optional int,
+identifier, text, float-as-text, int list, strand), every delimiter other than LF/CR, and every file — LF or
+uniformly CRLF — with at least one record and one field per column on every line: the code's parse (offset table
+→ CR adjustment → typed column extraction) returns exactly the reference parse, `lines.map (splitOn TAB)` read
+column by column in the documented way, with one entry per line. -/
+theorem parse_delimited (S : Schema) (sks : List String) (bs : Bytes)
+    (hk : S.cols.map (·.2) = sks.map normKind) (hd : S.delim ≠ 10) (hd13 : S.delim ≠ 13)
+    (hne : linesOf bs ≠ [])
+    (huni : (∀ l ∈ linesOf bs, l.getLast? ≠ some 13) ∨ (∀ l ∈ linesOf bs, l.getLast? = some 13))
+    (hlen : ∀ l ∈ specLines bs, (splitOn S.delim l).length = sks.length)
+    (cs : List Col)
+    (hspec : specColumnsFrom ((specLines bs).map (splitOn S.delim)) 0 sks = some cs) :
+    parseDelimited S bs = .ok ((linesOf bs).length, cs) := by
+  rcases huni with hnocr | hcr
+  · -- LF
+    have hsl : specLines bs = linesOf bs := by
+      unfold specLines
+      simp only
+      split
+      · rename_i h
+        obtain ⟨l0, lrest, hl⟩ : ∃ l0 lrest, linesOf bs = l0 :: lrest := by
+          cases h' : linesOf bs with
+          | nil => exact absurd h' hne
+          | cons a b => exact ⟨a, b, rfl⟩
+        have := (List.all_eq_true.mp h.2) l0 (by rw [hl]; simp)
+        exact absurd (by simpa using this) (hnocr l0 (by rw [hl]; simp))
+      · rfl
+    rw [hsl] at hlen hspec
+    obtain ⟨t, ht, htexts, hwfp⟩ := table_rows_facts S.delim hd bs sks.length hne hlen
+    have hcr := crAdjust_lf (complete bs) S.delim hd13 t.rows (linesOf bs) htexts hwfp hnocr
+    have := parse_assemble S sks bs t hk ht _ (by rw [hcr]; exact htexts)
+      (by rw [hcr]; intro r hr p hp; obtain ⟨h1, h2, _, _⟩ := hwfp r hr p hp; exact ⟨h1, by omega⟩) cs hspec
+    simpa using this
+  · -- CRLF
+    have hsl : specLines bs = (linesOf bs).map List.dropLast := by
+      unfold specLines
+      simp only
+      have hall : (linesOf bs).all (fun l => l.getLast? = some 13) = true := by
+        rw [List.all_eq_true]; intro l hl; simp [hcr l hl]
+      simp only [hne, hall, ne_eq, not_false_eq_true, and_self, if_true]
+      apply List.map_congr_left
+      intro l hl
+      simp [stripCR, hcr l hl]
+    rw [hsl] at hlen hspec
+    have hlen' : ∀ l ∈ linesOf bs, (splitOn S.delim l).length = sks.length := by
+      intro l hl
+      have hlne : l ≠ [] := by intro h; have := hcr l hl; rw [h] at this; simp at this
+      have hl13 : l = l.dropLast ++ [13] := by
+        have := List.dropLast_concat_getLast hlne
+        have h2 := hcr l hl
+        rw [List.getLast?_eq_some_getLast hlne] at h2
+        simp only [Option.some.injEq] at h2
+        rw [h2] at this
+        exact this.symm
+      have := hlen l.dropLast (List.mem_map.mpr ⟨l, hl, rfl⟩)
+      rw [hl13, splitOn_snoc S.delim 13 (fun h => hd13 h.symm)]
+      have hne' := splitOn_ne_nil S.delim l.dropLast
+      have hlenpos : 0 < (splitOn S.delim l.dropLast).length := List.length_pos_iff.mpr hne'
+      simp only [List.length_append, List.length_dropLast, List.length_cons, List.length_nil]
+      omega
+    obtain ⟨t, ht, htexts, hwfp⟩ := table_rows_facts S.delim hd bs sks.length hne hlen'
+    have hwf : ∀ r ∈ t.rows, ∀ p ∈ r, p.1 ≤ p.2 ∧ p.2 ≤ (complete bs).length := by
+      intro r hr p hp; obtain ⟨h1, h2, _, _⟩ := hwfp r hr p hp; exact ⟨h1, by omega⟩
+    obtain ⟨htx, hwf'⟩ := crAdjust_crlf (complete bs) S.delim hd13 t.rows (linesOf bs) hne htexts hwf hcr
+    have := parse_assemble S sks bs t hk ht _ (by rw [htx]) hwf' cs (by
+      rw [List.map_map] at hspec
+      exact hspec)
+    simpa using this
+
 /-! ### non-vacuity -/
 
 -- "c\t1\t22\nxy\t333\t4\n" : two lines, three fields each
@@ -1181,5 +1786,15 @@ example : omap specIntList [[49,48,44,50,48,44], [55,44]] = some [[10,20],[7]] :
 example : specInt [45,53] = some (-5) := by decide
 -- "@r\nAC\n+\nII\n": one FASTQ record
 example : (linesOf [64,114,10,65,67,10,43,10,73,73,10]).length % 4 = 0 ∧ 4 ≤ (linesOf [64,114,10,65,67,10,43,10,73,73,10]).length := by decide
+
+-- parse_delimited: the hypotheses hold for BED3 on "c\t1\t22\nxy\t333\t4\n"
+example : Gen.C02.bed3.cols.map (·.2) = ["id", "int", "int"].map normKind := by decide
+example : ∀ l ∈ specLines [99,9,49,9,50,50,10,120,121,9,51,51,51,9,52,10], (splitOn 9 l).length = 3 := by decide
+example : specColumnsFrom ((specLines [99,9,49,9,50,50,10,120,121,9,51,51,51,9,52,10]).map (splitOn 9)) 0 ["id", "int", "int"]
+    = some [Col.strs [[99], [120, 121]], Col.ints [1, 333], Col.ints [22, 4]] := by decide
+-- and on the CRLF variant "c\t1\r\nd\t22\r\n" of chrom.sizes
+example : (∀ l ∈ linesOf [99,9,49,13,10,100,9,50,50,13,10], l.getLast? = some 13) ∧
+    specColumnsFrom ((specLines [99,9,49,13,10,100,9,50,50,13,10]).map (splitOn 9)) 0 ["str", "int"]
+      = some [Col.strs [[99], [100]], Col.ints [1, 22]] := by decide
 
 end C02
